@@ -62,7 +62,7 @@ theorem vA_step {S W : Prog}
     | _ => simp [aeE] at hae
   | tag i t =>
     cases e' with
-    | tag j u => simp only [aeE, beq_iff_eq] at hae; subst hae; simp only [eval]
+    | tag j u => simp only [aeE, Bool.and_eq_true, beq_iff_eq] at hae; obtain ⟨hi, ht⟩ := hae; subst hi; simp only [eval, ht]
     | _ => simp [aeE] at hae
   | constr c t args =>
     cases e' with
